@@ -57,7 +57,8 @@ def install(E: Any) -> None:
     E.str_order_axioms()
     lt = pre.func("str_lt", S, S, z3.BoolSort())
     a, b = z3.Ints("a b")
-    rng = lambda k: z3.And(0 <= k, k <= K9999)  # noqa: E731
+    KMIN = -62135596800 * 10**6   # 0001-01-01T00:00:00Z
+    rng = lambda k: z3.And(KMIN <= k, k <= K9999)  # noqa: E731
     inv = pre.func("pv_str_inv", S, z3.IntSort())
     pre.ax("dt.str_of_injective", z3.ForAll([a], z3.Implies(rng(a), inv(str_of(a)) == a), patterns=[str_of(a)]))
     pre.ax("dt.str_of_order", z3.ForAll([a, b], z3.Implies(z3.And(rng(a), rng(b)), lt(str_of(a), str_of(b)) == (a < b)),
